@@ -312,7 +312,17 @@ func TestC09(t *testing.T) {
 								builder.Fanout(b, *m.Fanout)
 							}
 							if m.Mode != nil {
-								builder.Permissions(b, int(*m.Mode))
+								// the three notations the builder accepts for one mode value
+								switch (int(typ) + int(mask) + vi) % 3 {
+								case 0:
+									builder.Permissions(b, int(*m.Mode))
+								case 1:
+									builder.PermissionsString(b, fmt.Sprintf("0%o", *m.Mode))
+									c.Count("mode_strings_octal", 1)
+								default:
+									builder.PermissionsString(b, fmt.Sprintf("%d", *m.Mode))
+									c.Count("mode_strings_decimal", 1)
+								}
 							}
 							if m.Mtime != nil {
 								builder.Mtime(b, func(tb builder.TimeBuilder) {
@@ -402,7 +412,9 @@ func TestC09(t *testing.T) {
 				}
 			}
 		}
-		for _, mt := range []*string{nil, strp(""), strp("text/plain"), strp("application/x-ünïcode; charset=utf-8"), strp(string(bytes.Repeat([]byte("a"), 300)))} {
+		for _, mt := range []*string{nil, strp(""), strp("text/plain"), strp("application/x-ünïcode; charset=utf-8"), strp(string(bytes.Repeat([]byte("a"), 300))),
+			// a proto2 string is bytes on the wire: not necessarily UTF-8
+			strp("text/plain; charset=\xe9"), strp("\xff\xfe/x"), strp("a\xe6\x97"), strp("\x00\x01\x80")} {
 			for _, unk := range []bool{false, true} {
 				canon, _ := proto.Marshal(&pb.Metadata{MimeType: mt})
 				raw := canon
